@@ -20,10 +20,12 @@ Definition view := (bool * bool * bool * bool * list N * bool * bool * list N)%t
     misc: (CONNECT carried the server-side sid, own-room broadcast arrived, calls of the other
            namespace's middleware, OnAnyConnection runs, unexpected packets on the connection
            (a second CONNECT / CONNECT_ERROR for an attempt, DISCONNECT, ACK, any EVENT on a
-           connection that was never admitted), handler seen within the wait) *)
+           connection that was never admitted), handler seen within the wait)
+    recovery: (the adapter restored the session named by the CONNECT's pid/offset - same socket id,
+           its own room and the room "sess" -, ServerConnectionStateRecovery.UseMiddlewares) *)
 Definition acase :=
   (list (N * N) * list (N * view) * list view * N * (N * N * N) * view * view
-   * (bool * bool * N * N * N * bool))%type.
+   * (bool * bool * N * N * N * bool) * (bool * bool))%type.
 
 Definition room_code (x : sid) (r : room) : N :=
   match r with
@@ -35,7 +37,7 @@ Definition subset (a b : list N) : bool := forallb (fun x => mem N.eqb x b) a.
 Definition same_set (a b : list N) : bool := subset a b && subset b a.
 
 Definition named_candidates (k : nat) : list N :=
-  map N.of_nat (seq 0 (S k)) ++ map (fun i => (100 + N.of_nat i)%N) (seq 0 k)
+  50%N :: map N.of_nat (seq 0 (S k)) ++ map (fun i => (100 + N.of_nat i)%N) (seq 0 k)
   ++ map (fun i => (200 + N.of_nat i)%N) (seq 0 k).
 
 Definition view_of (k : nat) (s : server) (x : sid) : view :=
@@ -95,7 +97,7 @@ Definition step_joins (sel : jthread -> bool) (t : adm) (s : server) : adm * ser
 
 Definition pc_code (p : pc) : N :=
   match p with
-  | PMw i => N.of_nat i | PDisable _ => 1001 | PLeave _ => 1002 | PSendError _ => 1003
+  | PNew => 1000 | PMw i => N.of_nat i | PDisable _ => 1001 | PLeave _ => 1002 | PSendError _ => 1003
   | PRejected _ => 1004 | PStore => 1005 | PConnTables => 1006 | PJoinOwn => 1007
   | PSendConnect => 1008 | PSetConnected => 1009 | PSpawn => 1010 | PAdmitted => 1011
   end%N.
@@ -135,11 +137,11 @@ Fixpoint sim (fuel : nat) (k : nat) (t : adm) (s : server) (acc : list (N * view
         sim f k t2 s2 acc'
   end.
 
-Definition predict (chain : list (N * N))
+Definition predict_rec (chain : list (N * N)) (rec usemw : bool)
   : list (N * view) * list view * N * (N * N * N) * view :=
   let k := length chain in
-  let t0 := new_adm case_sid 9%N (mk_chain 0 chain) in
-  let '(t1, s1, calls) := sim (3 * k + 12) k t0 background [] in
+  let t0 := new_adm_rec case_sid 9%N (mk_chain 0 chain) (if rec then Some [50%N] else None) usemw in
+  let '(t1, s1, calls) := sim (3 * k + 13) k t0 background [] in
   let hviews := match t_h t1 with HPending => [view_of k s1 case_sid] | _ => [] end in
   let '(t2, s2) := step_h t1 s1 in
   (* the late Joins, one after the other (each: enter, then AddAll) *)
@@ -154,6 +156,8 @@ Definition predict (chain : list (N * N))
     end%N in
   (calls, hviews, resp, m, view_of k s4 case_sid).
 
+Definition predict (chain : list (N * N)) := predict_rec chain false false.
+
 Definition calls_eqb (a b : list (N * view)) : bool :=
   list_eqb (fun x y => N.eqb (fst x) (fst y) && view_eqb (snd x) (snd y)) a b.
 
@@ -162,8 +166,8 @@ Definition msg_eqb (a b : N * N * N) : bool :=
 
 (** Correspondence: the rig saw what the model predicts for this chain. *)
 Definition agree (c : acase) : bool :=
-  let '(chain, calls, hviews, resp, m, post, final, misc) := c in
-  let '(pcalls, phviews, presp, pm, ppost) := predict chain in
+  let '(chain, calls, hviews, resp, m, post, final, misc, (rec, usemw)) := c in
+  let '(pcalls, phviews, presp, pm, ppost) := predict_rec chain rec usemw in
   calls_eqb pcalls calls
   && list_eqb view_eqb phviews hviews
   && N.eqb presp resp
@@ -194,22 +198,33 @@ Fixpoint first_reject (i : N) (chain : list (N * N)) : option (N * N) :=
   | (_, v) :: chain' => if N.eqb v 0 then first_reject (N.succ i) chain' else Some (i, v)
   end.
 
+(** not admitted, for a restored session whose chain is running: it is in the rooms of its previous
+    life (own room included), and nothing else *)
+Definition not_admitted_core (v : view) : bool :=
+  let '(l, f, c, h, r, ra, ro, via) := v in
+  negb l && negb f && negb c && negb ra && negb ro && match via with [] => true | _ => false end.
+
 Definition oracle (c : acase) : bool :=
-  let '(chain, calls, hviews, resp, m, post, final, misc) := c in
+  let '(chain, calls, hviews, resp, m, post, final, misc, (rec, usemw)) := c in
   let '(resp_sid, probe, trap, anyh, final_evt, hwaited) := misc in
   let k := length chain in
   let idx := map fst calls in
+  let connected_ok :=
+    N.eqb resp 0 && resp_sid
+    && match hviews with [v] => admitted v | _ => false end
+    && N.eqb anyh 1 && hwaited && probe
+    && admitted post && admitted final in
   (* no middleware ever sees the socket admitted; the other namespace's chain never runs *)
-  forallb (fun cv => not_admitted (snd cv)) calls
+  forallb (fun cv => if rec then not_admitted_core (snd cv) else not_admitted (snd cv)) calls
   && N.eqb trap 0
-  && match first_reject 0 chain with
+  && if rec && negb usemw then
+       (* a session the adapter really restored, UseMiddlewares off: the only case without chain *)
+       match calls with [] => true | _ => false end && connected_ok
+     else
+     match first_reject 0 chain with
      | None =>
          (* every middleware ran once, in registration order; then the socket is connected *)
-         list_eqb N.eqb idx (map N.of_nat (seq 0 k))
-         && N.eqb resp 0 && resp_sid
-         && match hviews with [v] => admitted v | _ => false end
-         && N.eqb anyh 1 && hwaited && probe
-         && admitted post && admitted final
+         list_eqb N.eqb idx (map N.of_nat (seq 0 k)) && connected_ok
      | Some (j, v) =>
          (* the first rejection stops the chain, is carried by CONNECT_ERROR, nothing remains *)
          list_eqb N.eqb idx (map N.of_nat (seq 0 (S (N.to_nat j))))
@@ -302,8 +317,9 @@ Definition mkv (l f c h : bool) (r : list N) (ra ro : bool) (via : list N) : vie
   (l, f, c, h, r, ra, ro, via).
 Definition mkacase (chain : list (N * N)) (calls : list (N * view)) (hviews : list view) (resp : N)
   (mk mi mc : N) (post final : view) (resp_sid probe : bool) (trap anyh final_evt : N)
-  (hwaited : bool) : acase :=
-  (chain, calls, hviews, resp, (mk, mi, mc), post, final, (resp_sid, probe, trap, anyh, final_evt, hwaited)).
+  (hwaited : bool) (rec usemw : bool) : acase :=
+  (chain, calls, hviews, resp, (mk, mi, mc), post, final, (resp_sid, probe, trap, anyh, final_evt, hwaited),
+   (rec, usemw)).
 Definition mkecase (hs : list (N * bool)) (chain : list bool) (with_ack : bool) (name : bytes)
   (sent : list val) (dec_ok : bool) (omw : list (N * bytes * list val)) (oh : list (N * list val))
   (oerr : N) (nack : N) (ack_ok : bool) (done : bool) : ecase :=
@@ -340,9 +356,9 @@ Definition wpredict (ca cb : list (N * N)) (g : N)
   let k := length ca in
   let ta := new_adm sid_a 9%N (mk_chain 0 ca) in
   let tb := new_adm sid_b 10%N (mk_chain 0 cb) in
-  let st1 := run (repeat (0%nat, WMain) (N.to_nat g)) (background, [ta; tb]) in
-  let st2 := run (repeat (1%nat, WMain) (k + 10) ++ [(1%nat, WHandler)]) st1 in
-  let st3 := run (repeat (0%nat, WMain) (k + 10) ++ [(0%nat, WHandler)]) st2 in
+  let st1 := run (repeat (0%nat, WMain) (S (N.to_nat g))) (background, [ta; tb]) in
+  let st2 := run (repeat (1%nat, WMain) (k + 11) ++ [(1%nat, WHandler)]) st1 in
+  let st3 := run (repeat (0%nat, WMain) (k + 11) ++ [(0%nat, WHandler)]) st2 in
   let ticks := [(1%N, fst st1); (2%N, fst st2); (3%N, fst st3)] in
   ((resp_code sid_a (fst st3), resp_code sid_b (fst st3)),
    (tick_hits sid_a ticks, tick_hits sid_b ticks),
